@@ -1,4 +1,5 @@
 import SJ.Proofs.Tables
+import SJ.Proofs.Number
 /-
 C03 — Numbers get the documented type and the exact value.
 -/
@@ -14,5 +15,38 @@ theorem C03_maxIntLen : cmaxIntLen = 20 ∧ 10^19 > 2^63 - 1 ∧ 10^20 > 2^64 - 
 
 /-- The overflowed-integer flag is bit 0 of the float tag's payload. -/
 theorem C03_flag : cFloatOverflowedInteger = 1 ∧ wFloatOverflowedInteger = 1 := by decide
+
+open SJ.NumberProofs
+
+/-- An integer literal (optional minus, digits without superfluous leading zero) followed by an end-of-value
+    byte: int64 if it fits, else uint64 if non-negative and it fits, else the correctly rounded float64 with the
+    overflowed-integer flag (or rejection if that is infinite). Any number of digits. -/
+theorem C03_integer_literal (neg : Bool) (digits rest : List UInt8) (t : UInt8)
+    (hne : digits ≠ []) (hdig : ∀ d ∈ digits, isDigit d = true)
+    (hlz : digits = [48] ∨ digits.head? ≠ some 48) (ht : numRune t = 8) :
+    parseNumber (((if neg then [45] else []) ++ digits) ++ t :: rest).toArray 0 =
+      (let z : Int := if neg then -(digitsVal digits : Int) else digitsVal digits
+       if -(2^63:Int) ≤ z ∧ z < 2^63 then some (mkWord tagInteger 0, ofInt64 z)
+       else if 0 ≤ z ∧ z < 2^64 then some (mkWord tagUint 0, UInt64.ofNat z.toNat)
+       else (F64.roundDecimal neg (digitsVal digits) 0).map
+              (fun b => (mkWord tagFloat 0 ||| wFloatOverflowedInteger, b))) :=
+  integer_literal neg digits rest t hne hdig hlz ht
+
+/-- Every literal of the RFC grammar followed by an end-of-value byte gets the tag, flag and value that the
+    specification `Spec.numValue` assigns (float literals: correctly rounded, flag clear). -/
+theorem C03_agrees_with_spec (s rest : List UInt8) (l : Spec.NumLit) (t : UInt8)
+    (hs : Spec.numberLit s = some (l, [])) (ht : numRune t = 8) :
+    parseNumber (s ++ t :: rest).toArray 0 = (Spec.numValue l).map encode :=
+  agrees_with_spec s rest l t hs ht
+
+/-- What is not a literal of the grammar is rejected. -/
+theorem C03_rejects (s rest : List UInt8) (t : UInt8) (hstart : NumStart s) (ht : numRune t = 8)
+    (h : Spec.numberLit s = none ∨ ∃ l c r, Spec.numberLit s = some (l, c :: r) ∧ numRune c ≠ 8) :
+    parseNumber (s ++ t :: rest).toArray 0 = none :=
+  rejects_with_spec_eov s rest t hstart ht h
+
+/-- non-vacuity: the three integer branches and a float are all taken -/
+example : parseNumber "9223372036854775807,".toUTF8.data 0 = some (mkWord tagInteger 0, 0x7fffffffffffffff) ∧
+    parseNumber "9223372036854775808,".toUTF8.data 0 = some (mkWord tagUint 0, 0x8000000000000000) := by decide +kernel
 
 end SJ.Properties.C03
